@@ -332,8 +332,9 @@ class CSSStyleSheet(cssutils.stylesheets.StyleSheet):
             {
                 'S': S,
                 'COMMENT': COMMENT,
-                'CDO': lambda *ignored: None,
-                'CDC': lambda *ignored: None,
+                # like S: keep what is expected next (at least 1: no @charset)
+                'CDO': S,
+                'CDC': S,
                 'CHARSET_SYM': charsetrule,
                 'FONT_FACE_SYM': fontfacerule,
                 'IMPORT_SYM': importrule,
